@@ -13,14 +13,19 @@ from ..program import AnalysisError, FunctionInfo, fn_nodes, norm
 from ..cfg import cfg_of, CNode
 from ..fold import is_unknown
 from ..spec import tables as T
-from .common import resolve_all, JWE_CONSUME, can_reach_exit, entries, impls, scope_of, sites_calling, succ_by_label, names_in
+from .common import resolve_all, is_const, JWE_CONSUME, can_reach_exit, entries, impls, scope_of, sites_calling, succ_by_label, names_in
 
 ZIP = "rfc7516.models:JWEZipModel"
 
 
 def _is_decompress_obj(eng, fn: FunctionInfo, recv: ast.expr) -> bool:
     td = eng.types.of(fn.module, recv)
-    return any("zlib" in c and "ecompress" in c for c in td.classes)
+    if any("zlib" in c and "ecompress" in c for c in td.classes):
+        return True
+    # untyped (e.g. it came through a helper annotated Any): every value the name can hold here is a zlib.decompressobj(...) call
+    from .common import resolve_all as _ra
+    texts = _ra(eng, fn, recv)
+    return bool(texts) and all(t_.startswith(("zlib.decompressobj(", "decompressobj(")) for t_ in texts)
 
 
 def r17_1(ctx) -> None:
@@ -217,6 +222,18 @@ def _gate_kind(eng, fn: FunctionInfo, e: ast.AST, objtxt: str, first_call: ast.C
             if neg_here and eng.prog.parent(s1) is eng.prog.parent(par):
                 both = ast.BoolOp(op=ast.Or(), values=[plain[0][1], plain[1][1]])
                 return _gate_kind(eng, fn, both, objtxt, first_call, depth + 1)
+            # `if T: x = True else: x = B`  is  `x = T or B`
+            p1, p2 = eng.prog.parent(s1), eng.prog.parent(s2)
+            if isinstance(p1, ast.If) and p1 is p2 and len(p1.body) >= 1 and len(p1.orelse) >= 1:
+                tb = [s_ for s_ in (s1, s2) if s_ in p1.body]
+                eb = [s_ for s_ in (s1, s2) if s_ in p1.orelse]
+                if len(tb) == 1 and len(eb) == 1:
+                    if is_const(tb[0].value, True):
+                        both = ast.BoolOp(op=ast.Or(), values=[p1.test, eb[0].value])
+                        return _gate_kind(eng, fn, both, objtxt, first_call, depth + 1)
+                    if is_const(eb[0].value, True) and isinstance(p1.test, ast.UnaryOp) and isinstance(p1.test.op, ast.Not):
+                        both = ast.BoolOp(op=ast.Or(), values=[p1.test.operand, tb[0].value])
+                        return _gate_kind(eng, fn, both, objtxt, first_call, depth + 1)
     return None
 
 
